@@ -51,7 +51,129 @@ use vls_protocol_signer::handler::{
     ChannelHandler, Error as HError, Handler, HandlerBuilder, RootHandler,
 };
 
-pub type MemPersister = KVVPersister<MemoryKVVStore, JsonFormat>;
+pub type MemPersister = KVVPersister<HStore, JsonFormat>;
+
+/// The store under the signer: the plain in-memory KVV store, or the transactional
+/// `CloudKVVStore<MemoryKVVStore>` the daemon uses with an external (cloud) store.  In cloud
+/// mode the transaction is entered lazily by the first store operation of a request (equivalent
+/// to the daemon's enter-before-handle, since nothing touches the store in between) and ended
+/// by the harness after the request (`World::prepare_request` / `commit_request`).
+pub enum HStore {
+    Plain(MemoryKVVStore),
+    Cloud(vls_persist::kvv::cloud::CloudKVVStore<MemoryKVVStore>, std::sync::atomic::AtomicBool),
+}
+
+impl lightning_signer::SendSync for HStore {}
+
+impl HStore {
+    pub fn new(cloud: bool) -> HStore {
+        let m = MemoryKVVStore::new([7u8; 16]);
+        if cloud {
+            HStore::Cloud(vls_persist::kvv::cloud::CloudKVVStore::new(m), std::sync::atomic::AtomicBool::new(false))
+        } else {
+            HStore::Plain(m)
+        }
+    }
+    fn ensure(&self) {
+        if let HStore::Cloud(c, f) = self {
+            if !f.swap(true, std::sync::atomic::Ordering::SeqCst) {
+                c.enter().expect("enter");
+            }
+        }
+    }
+    pub fn is_cloud(&self) -> bool {
+        matches!(self, HStore::Cloud(..))
+    }
+    /// end of the request, first half: the mutations the daemon would now send to the cloud
+    /// (None when no transaction was opened or the store is not transactional)
+    pub fn prepare_request(&self) -> Option<Vec<(String, (u64, Vec<u8>))>> {
+        match self {
+            HStore::Cloud(c, f) if f.load(std::sync::atomic::Ordering::SeqCst) => Some(c.prepare().into_inner()),
+            _ => None,
+        }
+    }
+    /// end of the request, second half: commit to the local store
+    pub fn commit_request(&self) {
+        if let HStore::Cloud(c, f) = self {
+            if f.swap(false, std::sync::atomic::Ordering::SeqCst) {
+                c.commit().expect("commit");
+            }
+        }
+    }
+}
+
+macro_rules! hstore_delegate {
+    ($self:ident, $s:ident => $e:expr) => {
+        match $self {
+            HStore::Plain($s) => $e,
+            HStore::Cloud($s, _) => {
+                $self.ensure();
+                $e
+            }
+        }
+    };
+}
+
+impl KVVStore for HStore {
+    type Iter = <MemoryKVVStore as KVVStore>::Iter;
+    fn put(&self, key: &str, value: Vec<u8>) -> Result<(), lightning_signer::persist::Error> {
+        hstore_delegate!(self, s => s.put(key, value))
+    }
+    fn put_with_version(&self, key: &str, version: u64, value: Vec<u8>) -> Result<(), lightning_signer::persist::Error> {
+        hstore_delegate!(self, s => s.put_with_version(key, version, value))
+    }
+    fn put_batch(&self, kvvs: Vec<KVV>) -> Result<(), lightning_signer::persist::Error> {
+        hstore_delegate!(self, s => s.put_batch(kvvs))
+    }
+    fn get(&self, key: &str) -> Result<Option<(u64, Vec<u8>)>, lightning_signer::persist::Error> {
+        hstore_delegate!(self, s => s.get(key))
+    }
+    fn get_version(&self, key: &str) -> Result<Option<u64>, lightning_signer::persist::Error> {
+        hstore_delegate!(self, s => s.get_version(key))
+    }
+    fn get_prefix(&self, prefix: &str) -> Result<Self::Iter, lightning_signer::persist::Error> {
+        // reads of the local store need no transaction
+        match self {
+            HStore::Plain(s) => s.get_prefix(prefix),
+            HStore::Cloud(s, _) => s.get_prefix(prefix),
+        }
+    }
+    fn delete(&self, key: &str) -> Result<(), lightning_signer::persist::Error> {
+        hstore_delegate!(self, s => s.delete(key))
+    }
+    fn clear_database(&self) -> Result<(), lightning_signer::persist::Error> {
+        hstore_delegate!(self, s => s.clear_database())
+    }
+    fn enter(&self) -> Result<(), lightning_signer::persist::Error> {
+        self.ensure();
+        Ok(())
+    }
+    fn prepare(&self) -> lightning_signer::persist::Mutations {
+        lightning_signer::persist::Mutations::from_vec(self.prepare_request().unwrap_or_default())
+    }
+    fn commit(&self) -> Result<(), lightning_signer::persist::Error> {
+        self.commit_request();
+        Ok(())
+    }
+    fn put_batch_unlogged(&self, kvvs: Vec<KVV>) -> Result<(), lightning_signer::persist::Error> {
+        match self {
+            HStore::Plain(s) => s.put_batch_unlogged(kvvs),
+            HStore::Cloud(s, _) => s.put_batch_unlogged(kvvs),
+        }
+    }
+    fn reset_versions(&self) -> Result<(), lightning_signer::persist::Error> {
+        match self {
+            HStore::Plain(s) => s.reset_versions(),
+            HStore::Cloud(s, _) => s.reset_versions(),
+        }
+    }
+    fn signer_id(&self) -> lightning_signer::persist::SignerId {
+        match self {
+            HStore::Plain(s) => s.signer_id(),
+            HStore::Cloud(s, _) => s.signer_id(),
+        }
+    }
+}
 
 pub const START_TIME: u64 = 1_700_000_000;
 pub const CHANNEL_VALUE: u64 = 3_000_000;
@@ -410,6 +532,8 @@ pub struct WorldCfg {
     pub allowlist: Vec<String>,
     /// wrap the simple validator in the on-chain validator
     pub onchain: bool,
+    /// run over the transactional CloudKVVStore<MemoryKVVStore>
+    pub cloud: bool,
 }
 
 impl Default for WorldCfg {
@@ -423,6 +547,7 @@ impl Default for WorldCfg {
             positive_approver: false,
             allowlist: vec![],
             onchain: false,
+            cloud: false,
         }
     }
 }
@@ -448,9 +573,14 @@ pub fn dump_persister(p: &MemPersister) -> Dump {
 }
 
 pub fn persister_from_dump(d: &Dump) -> Arc<MemPersister> {
-    let store = MemoryKVVStore::new([7u8; 16]);
+    persister_from_dump_as(d, false)
+}
+
+pub fn persister_from_dump_as(d: &Dump, cloud: bool) -> Arc<MemPersister> {
+    let store = HStore::new(cloud);
+    // straight into the local store (as the daemon does when it syncs from the cloud)
     store
-        .put_batch(d.iter().map(|(k, (ver, v))| KVV(k.clone(), (*ver, v.clone()))).collect())
+        .put_batch_unlogged(d.iter().map(|(k, (ver, v))| KVV(k.clone(), (*ver, v.clone()))).collect())
         .unwrap();
     Arc::new(KVVPersister(store, JsonFormat))
 }
@@ -523,7 +653,7 @@ pub fn call<T>(f: impl FnOnce() -> Result<T, String>) -> Outcome<T> {
 
 impl World {
     pub fn new(cfg: WorldCfg) -> World {
-        let store = MemoryKVVStore::new([7u8; 16]);
+        let store = HStore::new(cfg.cloud);
         let persister = Arc::new(KVVPersister(store, JsonFormat));
         Self::build(cfg, persister, START_TIME)
     }
@@ -572,6 +702,9 @@ impl World {
         assert!(done);
         let root: RootHandler = init.into();
         let node = Arc::clone(root.node());
+        // building (or restoring) the node is one transaction of its own
+        let _ = persister.0.prepare_request();
+        persister.0.commit_request();
         World { cfg, persister, clock, root, node }
     }
 
@@ -581,13 +714,38 @@ impl World {
         let d = dump_persister(&self.persister);
         let cfg = self.cfg.clone();
         drop(self);
-        World::build(cfg, persister_from_dump(&d), now)
+        let cloud = cfg.cloud;
+        World::build(cfg, persister_from_dump_as(&d, cloud), now)
     }
 
     /// A second signer restored from a deep copy of the store; the live one keeps running.
     pub fn clone_restored(&self) -> World {
         let d = dump_persister(&self.persister);
-        World::build(self.cfg.clone(), persister_from_dump(&d), self.now())
+        World::build(self.cfg.clone(), persister_from_dump_as(&d, self.cfg.cloud), self.now())
+    }
+
+    /// A second signer restored from a copy of the local store with `muts` applied on top: what a
+    /// restart finds when the crash came after the mutations reached the cloud store and before
+    /// the local commit (the daemon then syncs the local store from the cloud).
+    pub fn clone_restored_with(&self, muts: &[(String, (u64, Vec<u8>))]) -> World {
+        let mut d = dump_persister(&self.persister);
+        for (k, (ver, v)) in muts {
+            d.insert(k.clone(), (*ver, v.clone()));
+        }
+        World::build(self.cfg.clone(), persister_from_dump_as(&d, self.cfg.cloud), self.now())
+    }
+
+    /// End of a request in cloud mode: prepare (returns the mutations) ... commit.
+    pub fn prepare_request(&self) -> Option<Vec<(String, (u64, Vec<u8>))>> {
+        self.persister.0.prepare_request()
+    }
+    pub fn commit_request(&self) {
+        self.persister.0.commit_request()
+    }
+    pub fn end_request(&self) -> Option<Vec<(String, (u64, Vec<u8>))>> {
+        let m = self.prepare_request();
+        self.commit_request();
+        m
     }
 
     pub fn now(&self) -> u64 {
